@@ -20,8 +20,9 @@ TECHNIQUE = ('exhaustive enumeration of pumping families (unit alphabet derived 
              'doubling lengths up to a bound, CPU-time oracle in killable isolated workers')
 LEVEL_TEXT = ('Every unit of a run-time derived alphabet (every literal character and character-class member of every compiled '
               'pattern in pytrs.parser.rgxlib, plus ~45 short tokens) is pumped in 12 contexts x 7 suffixes with n = 4, 8, 16, ... up to '
-              '300 (quick) / 600 (thorough) characters; thorough adds all two-unit alternations; structural repetition (repeated '
-              'Twp/Rge lines, section headers, lots, lists, aliquots, chains) is included. The oracle is a measured resource '
+              '300 (quick) / 600 (thorough) characters; thorough adds all two-unit alternations; 30 structural families (repeated '
+              'Twp/Rge lines, section headers, lots, lists, aliquots, chains; ranges with k-digit end points and repeated maximal ranges, '
+              'whose expansion is large although the text is short) are included. The oracle is a measured resource '
               '(CPU seconds), so this is labelled exploration rather than model checking; the enumeration itself is exhaustive '
               'within the stated family bound.')
 LEVEL_NOTE = ('Trusted: time.process_time() inside the worker and the parent-side kill deadline. Super-linear behaviour that needs '
@@ -219,7 +220,8 @@ def units(tier):
     for u in punct_units():
         us.append({'k': 'pump_punct', 'mode': None, 'u': [u]})
     for mode in MODES[tier]:
-        us.append({'k': 'struct', 'mode': mode})
+        for name in STRUCT_FAMILIES:
+            us.append({'k': 'struct', 'mode': mode, 'name': name})
     return us
 
 
@@ -227,7 +229,8 @@ def space(tier):
     chars, pats = alphabet()
     return {'bound': f"texts <= {MAXLEN[tier]} characters; {len(all_units())} units ({len(chars)} characters derived from {pats} "
                      f"compiled patterns) x {len(PREFIXES)} prefixes x {len(SUFFIXES)} suffixes x doubling n; "
-                     f"plus {len(punct_units())} 'pattern word + punctuation' units in 5 contexts x 3 suffixes; "
+                     f"plus {len(punct_units())} 'pattern word + punctuation' units in 5 contexts x 3 suffixes; {len(STRUCT_FAMILIES)} structural "
+                     f"families (repetition, wide and maximal ranges); "
                      f"modes {MODES[tier]}; CPU limit {LIMIT}s",
             'caps_hit': []}
 
@@ -286,45 +289,61 @@ def pump_family(acc, tier, mode, pi, unit_seq, si):
     return series
 
 
-def structural(acc, tier, mode):
+STRUCT_FAMILIES = {
+    'twprge_lines': lambda k: '\n'.join(['T154N-R97W'] * k),
+    'twprge_lines_sec': lambda k: '\n'.join(['T154N-R97W Sec 14: NE/4'] * k),
+    'twprge_distinct_lines': lambda k: '\n'.join(f"T{100 + i}N-R97W Sec {1 + i % 36}: NE/4" for i in range(k)),
+    'sec_headers': lambda k: 'T154N-R97W ' + ' '.join(f"Sec {1 + i % 36}: NE/4," for i in range(k)),
+    'lots': lambda k: 'T154N-R97W Sec 14: ' + ', '.join(f"Lot {i + 1}" for i in range(k)),
+    'lot_list': lambda k: 'T154N-R97W Sec 14: Lots ' + ', '.join(str(i + 1) for i in range(k)),
+    'lot_ranges': lambda k: 'T154N-R97W Sec 14: Lots ' + ', '.join(f"{i + 1} - {i + 2}" for i in range(k)),
+    'sec_list': lambda k: 'T154N-R97W Secs ' + ', '.join(str(1 + i % 36) for i in range(k)) + ': NE/4',
+    'sec_ranges': lambda k: 'T154N-R97W Secs ' + ', '.join(f"{1 + i % 30} - {3 + i % 30}" for i in range(k)) + ': NE/4',
+    'aliquots': lambda k: 'T154N-R97W Sec 14: ' + ', '.join(['NE/4', 'N/2SW/4', 'W/2'][i % 3] for i in range(k)),
+    'chain': lambda k: 'T154N-R97W Sec 14: ' + 'N/2' * k + 'NE/4',
+    'chain_words': lambda k: 'T154N-R97W Sec 14: ' + ' of the '.join(['North Half'] * k) + ' of the Northeast Quarter',
+    'desc_str_lines': lambda k: '\n'.join(f"NE/4 of Section {1 + i % 36}, T154N-R97W" for i in range(k)),
+    'acreages': lambda k: 'T154N-R97W Sec 14: Lots ' + ', '.join(f"{i + 1}(40.{i % 100:02d})" for i in range(k)),
+    'pm_lines': lambda k: '\n'.join(['Township 154 North, Range 97 West of the 5th P.M.'] * k),
+    'warnings': lambda k: 'T154N-R97W Sec 14: NE/4 ' + ' '.join(['less and except the well', 'including depths', 'insofar only'][i % 3] for i in range(k)),
+    'no_ns_lines': lambda k: '\n'.join(['T154-R97 Sec 14: NE/4'] * k),
+    # ranges whose *expansion* is large although the text is short: one range with a k-digit end point, and k maximal ranges
+    'lot_range_wide': lambda k: 'T154N-R97W Sec 14: Lots 1 - ' + '9' * k,
+    'lot_range_wide_desc': lambda k: 'T154N-R97W Sec 14: Lots ' + '9' * k + ' - 1',
+    'lot_range_wide_L': lambda k: 'T154N-R97W Sec 14: L1-' + '9' * k + ', NE/4',
+    'sec_range_wide': lambda k: 'T154N-R97W Secs 1 - ' + '9' * k + ': NE/4',
+    'sec_range_wide_desc': lambda k: 'T154N-R97W Secs ' + '9' * k + ' - 1: NE/4',
+    'lot_ranges_max': lambda k: 'T154N-R97W Sec 14: ' + 'L1-999,' * k,
+    'lot_ranges_max_words': lambda k: 'T154N-R97W Sec 14: Lots ' + ', '.join(['1 - 999'] * k),
+    'lot_ranges_max_desc': lambda k: 'T154N-R97W Sec 14: ' + ', '.join(['Lots 999 - 1'] * k),
+    'lot_div_ranges_max': lambda k: 'T154N-R97W Sec 14: ' + ', '.join(['N/2 of Lots 1 - 999'] * k),
+    'sec_ranges_max': lambda k: 'T154N-R97W Secs ' + ', '.join(['1 - 99'] * k) + ': NE/4',
+    'sec_ranges_36': lambda k: 'T154N-R97W Secs ' + ', '.join(['1 - 36'] * k) + ': Lots 1 - 99, ALL',
+    'aliquot_dups': lambda k: 'T154N-R97W Sec 14: ' + 'NE/4, ' * k,
+    'twprge_secs': lambda k: '\n'.join(['T154N-R97W Secs 1 - 36: ALL'] * k),
+}
+
+
+def structural(acc, tier, mode, name):
     L = MAXLEN[tier]
-    fams = {
-        'twprge_lines': lambda k: '\n'.join(['T154N-R97W'] * k),
-        'twprge_lines_sec': lambda k: '\n'.join(['T154N-R97W Sec 14: NE/4'] * k),
-        'twprge_distinct_lines': lambda k: '\n'.join(f"T{100 + i}N-R97W Sec {1 + i % 36}: NE/4" for i in range(k)),
-        'sec_headers': lambda k: 'T154N-R97W ' + ' '.join(f"Sec {1 + i % 36}: NE/4," for i in range(k)),
-        'lots': lambda k: 'T154N-R97W Sec 14: ' + ', '.join(f"Lot {i + 1}" for i in range(k)),
-        'lot_list': lambda k: 'T154N-R97W Sec 14: Lots ' + ', '.join(str(i + 1) for i in range(k)),
-        'lot_ranges': lambda k: 'T154N-R97W Sec 14: Lots ' + ', '.join(f"{i + 1} - {i + 2}" for i in range(k)),
-        'sec_list': lambda k: 'T154N-R97W Secs ' + ', '.join(str(1 + i % 36) for i in range(k)) + ': NE/4',
-        'sec_ranges': lambda k: 'T154N-R97W Secs ' + ', '.join(f"{1 + i % 30} - {3 + i % 30}" for i in range(k)) + ': NE/4',
-        'aliquots': lambda k: 'T154N-R97W Sec 14: ' + ', '.join(['NE/4', 'N/2SW/4', 'W/2'][i % 3] for i in range(k)),
-        'chain': lambda k: 'T154N-R97W Sec 14: ' + 'N/2' * k + 'NE/4',
-        'chain_words': lambda k: 'T154N-R97W Sec 14: ' + ' of the '.join(['North Half'] * k) + ' of the Northeast Quarter',
-        'desc_str_lines': lambda k: '\n'.join(f"NE/4 of Section {1 + i % 36}, T154N-R97W" for i in range(k)),
-        'acreages': lambda k: 'T154N-R97W Sec 14: Lots ' + ', '.join(f"{i + 1}(40.{i % 100:02d})" for i in range(k)),
-        'pm_lines': lambda k: '\n'.join(['Township 154 North, Range 97 West of the 5th P.M.'] * k),
-        'warnings': lambda k: 'T154N-R97W Sec 14: NE/4 ' + ' '.join(['less and except the well', 'including depths', 'insofar only'][i % 3] for i in range(k)),
-        'no_ns_lines': lambda k: '\n'.join(['T154-R97 Sec 14: NE/4'] * k),
-    }
-    for name, f in fams.items():
-        fam = f"{mode}|struct|{name}"
-        k = 1
-        series = []
-        seen = set()
-        while True:
-            text = f(k)
-            if len(text) > L:
+    f = STRUCT_FAMILIES[name]
+    fam = f"{mode}|struct|{name}"
+    k = 1
+    series = []
+    seen = set()
+    while True:
+        text = f(k)
+        if len(text) > L:
+            break
+        if text not in seen:
+            seen.add(text)
+            dt = measure(acc, fam, text, mode)
+            series.append((len(text), dt))
+            if dt > LIMIT:
                 break
-            if text not in seen:
-                seen.add(text)
-                dt = measure(acc, fam, text, mode)
-                series.append((len(text), dt))
-                if dt > LIMIT:
-                    break
-            k += 1 if k < 4 else max(1, k // 3)
-        if series:
-            acc.notes.append({'family': fam, 'series': [(a, round(b, 4)) for a, b in series[-4:]]})
+        k += 1 if k < 4 else max(1, k // 3)
+    if series:
+        acc.notes.append({'family': fam, 'series': [(a, round(b, 4)) for a, b in series[-4:]]})
 
 
 def run_unit(unit, tier):
@@ -344,14 +363,14 @@ def run_unit(unit, tier):
             for si in (0, 2):
                 pump_family(acc, tier, unit['mode'], unit['p'], [unit['a'], b], si)
     else:
-        structural(acc, tier, unit['mode'])
+        structural(acc, tier, unit['mode'], unit['name'])
     r = acc.result()
     r['notes'] = acc.notes[:50]
     return r
 
 
 def on_unit_timeout(unit):
-    sig = f"C16:timeout:{unit.get('mode')}|p{unit.get('p')}|{unit.get('u') or unit.get('a') or unit.get('k')!r}"
+    sig = f"C16:timeout:{unit.get('mode')}|p{unit.get('p')}|{unit.get('u') or unit.get('a') or unit.get('name') or unit.get('k')!r}"
     return [{'cls': 'deadline_kill', 'sig': sig, 'case': {'unit': unit}, 'got': f"worker killed at the deadline twice",
              'exp': f"every text <= {LIMIT}s", 'note': 'some text of this family never returned'}]
 
